@@ -369,6 +369,29 @@ fn run_fn(name: &str, args: &[&str]) -> String {
         "is_valid_vp9_frame" => s01(is_valid_vp9_frame(&d())).into(),
         // the crate's assertion log (thread-local set of invariant messages): the three non-asserting entry
         // points; `contract_test` with an empty requirement list must not panic whatever was logged before
+        "frag_default_init" => {
+            let mut m = FragmentedMuxer::new(FragmentConfig::default());
+            hex_of_bytes(&m.init_segment())
+        }
+        "opus_config" => {
+            use muxide::codec::opus::OpusConfig;
+            let mut c = match args[0] {
+                "mono" => OpusConfig::mono(),
+                "stereo" => OpusConfig::stereo(),
+                _ => OpusConfig::default(),
+            };
+            if args[1] != "~" {
+                c = c.with_pre_skip(num(args[1]) as u16);
+            }
+            if args[2] != "~" {
+                c = c.with_channels(num(args[2]) as u8);
+            }
+            assert!(c.stream_count.is_none() && c.coupled_count.is_none() && c.channel_mapping.is_none());
+            format!(
+                "{:x} {:x} {:x} {:x} {:x} {:x}",
+                c.version, c.output_channel_count, c.pre_skip, c.input_sample_rate, c.output_gain, c.channel_mapping_family
+            )
+        }
         "invariant_log" => {
             let n = muxide::invariant_ppt::get_logged_invariants().len();
             muxide::invariant_ppt::contract_test("verif", &[]);
